@@ -17,6 +17,9 @@ Main results (used by `Props/C10.lean`; reusable by C11, C17, C19):
 * `checkFarkas_sound`  : `checkFarkas n S y`  ⇒ no real `x` satisfies `S`;
 * `checkKKT_sound`     : `checkKKT n S c x lam` ⇒ `x` satisfies `S` and is a nearest point of
                          `{x | S}` to `c` (squared Euclidean distance), over all *real* points.
+
+Completeness of the searches (they always produce a certificate these checkers accept) is in
+`Proofs/LinCertComplete.lean` (Fourier–Motzkin) and `Proofs/LinCertKKT.lean` (active-set projection).
 -/
 namespace VOPy.LinCert
 
